@@ -318,7 +318,12 @@ def run_single_playback_print(repo_copy, pkg, features, h, target_dir, log_path,
         if fm.group(1) in seen:
             continue
         seen.add(fm.group(1))
-        tests.append(body)
+        # keep only the test function: the generated doc comment quotes the failed check's description, which may span
+        # several lines without the `///` prefix (a multi-line assert expression) and then does not compile
+        k = body.find("#[test]")
+        what = re.search(r"/// Check for `([^`]*)`: (.*)", body)
+        note = "// %s: %s\n" % (what.group(1), what.group(2)[:200].replace("\n", " ")) if what else ""
+        tests.append(note + (body[k:] if k >= 0 else body))
     return tests or None
 
 
